@@ -55,7 +55,8 @@ type Ctx struct {
 	SpinCPU     time.Duration // CPU time without progress that counts as spinning
 	WedgeWall   time.Duration // wall time without progress, not blocked in Read, that counts as wedged
 	Quiet       bool
-	ViolateHook func(sig, kind, desc string) // for the fuzz targets: turn a violation into a test failure
+	ViolateHook func(sig, kind, desc string)      // for the fuzz targets: turn a violation into a test failure
+	DD          func(kind, ok, ops string) string // Lean verdict of the deadline discipline on a trace (nil: not available)
 }
 
 func NewCtx(r *vlib.Run, c *Case) *Ctx {
